@@ -7,7 +7,7 @@ open Conv
 let code_variant = Fixed
 (* set to true once patches/0002-encoding-init-signals-after-states.diff is applied to /repo: the init block of
    init_at(0) is then compared, in order, with Encoding.init_at2 (c04.ml) and the loop events use it (c02.ml) *)
-let second_repair = false
+let second_repair = true
 
 let ty_of_sexp = function
   | Sexp.List [Sexp.Atom "bv"; w] -> TBV (num w)
